@@ -181,9 +181,13 @@ pub fn gen_consistent_state(t: &mut Tape, attrs: &DifficultyAttributes, lazer_no
             s.n100 = p[1];
             s.n50 = p[2];
             s.misses = p[3];
-            s.osu_large_tick_hits = t.range(0, i64::from(a.n_large_ticks)) as u32;
-            s.slider_end_hits = t.range(0, i64::from(a.n_sliders)) as u32;
-            s.osu_small_tick_hits = t.range(0, i64::from(a.n_sliders)) as u32;
+            // slider parts: half of the states hit every part (with the Classic mod slider heads count as
+            // large ticks, hence up to n_large_ticks + n_sliders; the builders clamp to the origin's maximum)
+            let full = t.chance(1, 2);
+            let part = |t: &mut Tape, max: u32| if full { max } else { t.range(0, i64::from(max)) as u32 };
+            s.osu_large_tick_hits = part(t, a.n_large_ticks + a.n_sliders);
+            s.slider_end_hits = part(t, a.n_sliders);
+            s.osu_small_tick_hits = part(t, a.n_sliders);
             let max = a.max_combo.saturating_sub(s.misses);
             s.max_combo = if s.misses == 0 && t.chance(2, 3) { a.max_combo } else { t.range(0, i64::from(max)) as u32 };
         }
